@@ -395,6 +395,88 @@ def interleaved_iterators(ctx):
     ctx.cov.update(interleaved_iterator_pairs=len(pairs), interleaved_iterator_orders=len(jobs))
 
 
+def fault_history_worker(chunk, seed, tier):
+    """A damaged sibling of a file must be judged the same whether or not the intact file was loaded before (in a forked
+    child each, so nothing else is in the history): validation results must not be remembered across calls."""
+    import pickle
+
+    from iodata import load_one
+    from mc import fe
+    from mc.core import CORPUS, Part, make_scratch
+
+    part = Part(seed, tier)
+    tmp = make_scratch()
+
+    def outcome_in_child(paths, fmt):
+        r, w = os.pipe()
+        pid = os.fork()
+        if pid == 0:
+            code = 0
+            try:
+                os.close(r)
+                res = None
+                with warnings.catch_warnings():
+                    warnings.simplefilter("ignore")
+                    for p in paths:
+                        try:
+                            res = ("ok", c16calls.digest_obj(load_one(p, fmt=fmt)))
+                        except Exception as exc:  # noqa: BLE001
+                            res = ("exc", type(exc).__name__, str(exc).replace(os.path.dirname(p), "<dir>")[:200])
+                with os.fdopen(w, "wb") as fh:
+                    pickle.dump(res, fh)
+            except BaseException:  # noqa: BLE001
+                code = 1
+            finally:
+                os._exit(code)
+        os.close(w)
+        with os.fdopen(r, "rb") as fh:
+            data = fh.read()
+        os.waitpid(pid, 0)
+        return pickle.loads(data) if data else ("child-failed",)
+
+    try:
+        for fn, fmt, key, mutated in chunk:
+            part.count()
+            good = str(tmp / ("good_" + fn))
+            bad = str(tmp / ("bad_" + fn))
+            with open(good, "w") as fh:
+                fh.write((CORPUS / fn).read_text())
+            with open(bad, "w") as fh:
+                fh.write(mutated)
+            alone = outcome_in_child([bad], fmt)
+            after = outcome_in_child([good, bad], fmt)
+            info = {"file": fn, "fault": list(key)}
+            part.nontrivial(("fault-history", fn, key))
+            same = alone == after
+            part.outcome("fault-history", ("same:" + alone[0]) if same else "DEPENDS-ON-HISTORY")
+            if not same:
+                part.violation("interleaving", f"damaged-file-outcome-depends-on-earlier-load:{fn}", info,
+                               f"{fn} with {key} loaded alone gives {alone}, loaded right after the intact file gives {after}")
+    finally:
+        shutil.rmtree(tmp, ignore_errors=True)
+    return part.result()
+
+
+def fault_history(ctx):
+    from mc import fe
+    from mc.core import CORPUS
+    from mc.pool import pmap
+
+    files = [("h2o_sto3g.wfn", None), ("h2_ub3lyp_ccpvtz.wfx", None), ("h2o_sto3g.fchk", None), ("h2_sto3g.mkl", None)]
+    if ctx.thorough:
+        files += [("h2o.molden.input", None), ("ch3_hf_sto3g_fchk_multiwfn3.7.mwfn", None), ("water.mol2", None), ("example.sdf", None), ("water_single.pdb", None),
+                  ("cubegen_h2o_5points.cube", None), ("FCIDUMP.molpro.h2", None), ("LiCl_molecule.json", "json_qcschema")]
+    jobs = []
+    for fn, fmt in files:
+        text = (CORPUS / fn).read_text()
+        muts = list(fe.token_substitutions(text, menu=["SCALE", "INC1"], max_tokens=None if ctx.thorough else 400))
+        if not ctx.thorough:
+            muts = muts[:: max(1, len(muts) // 150)]
+        jobs += [(fn, fmt, key, m) for key, m in muts]
+    pmap(ctx, fault_history_worker, jobs, chunk=16)
+    ctx.cov.update(fault_history_files=[f for f, _ in files], fault_history_mutations=len(jobs))
+
+
 def dense_pairs():
     from mc.core import CORPUS
 
@@ -473,6 +555,8 @@ def dense_worker(chunk, seed, tier):
     try:
         with WarningHook() as hook:
             for label in chunk:
+                bound2 = label.endswith("@2")  # two preemptions, every line visited once per thread as a scheduling point
+                label = label[:-2] if bound2 else label
                 _, call_a, call_b = allpairs[label]
                 works = []
                 for t in range(2):
@@ -501,7 +585,11 @@ def dense_worker(chunk, seed, tier):
                         hook.repair()  # judged by the first thread pass (known finding); not counted here
                     part.outcome("threads-dense", "as-alone" if not bad else "DIFFERS")
 
-                ex = se.Explorer(make_bodies, is_point, bound=1, max_executions=40000 if tier == "thorough" else 8000, visit_cap=DENSE_VISIT_CAP[tier])
+                if bound2:
+                    ex = se.Explorer(make_bodies, is_point, bound=2, max_executions=60000 if tier == "thorough" else 12000, visit_cap=1)
+                    label = label + " (2 preemptions)"
+                else:
+                    ex = se.Explorer(make_bodies, is_point, bound=1, max_executions=40000 if tier == "thorough" else 8000, visit_cap=DENSE_VISIT_CAP[tier])
                 ex.explore(check)
                 total += ex.executions
                 part.count(ex.executions)
@@ -523,6 +611,7 @@ def dense_thread_pass(ctx):
     labels = [p[0] for p in pairs + heavy]
     if not ctx.thorough:
         labels = [lab for lab in labels if lab in DENSE_QUICK]
+    labels = ["xyz dump/dump@2"] + (["xyz load/load@2", "sdf dump/dump@2"] if ctx.thorough else []) + labels
     pmap(ctx, dense_worker, labels, chunk=1)
     ctx.cov.update(dense_thread_pairs=labels, dense_preemption_bound=1, dense_visit_cap=DENSE_VISIT_CAP[ctx.tier])
 
@@ -543,6 +632,7 @@ def run(ctx):
     ctx.cov.update(pool_calls=n, histories=len(hists), states=states, transitions=sum(len(h[0]) for h in hists),
                    traces_validated_against_impl=len(hists), depth_completed=3 if ctx.thorough else 2)
     interleaved_iterators(ctx)
+    fault_history(ctx)
     thread_schedules(ctx)
     dense_thread_pass(ctx)
     ctx.evaluations += 0
@@ -553,9 +643,11 @@ def run(ctx):
         "(thorough: all triples of a 10-call sub-pool) executed from the initial interpreter state (forked child per history); each step's result (object/file digest, exception type+message, warnings) must "
         "equal the same call alone in a fresh interpreter, and the snapshot of all module-level tables + warnings machinery must stay the initial one (one state, |pool| self-loops proves order independence). "
         "threads: all schedules with <= 2 preemptions of every pair (thorough: also triples) from a 6-call sub-pool, scheduling points at every line of the public-API wrapper and of "
-        "warnings.catch_warnings.__enter__/__exit__; second pass: two threads using the same format module on distinct data (5 pairs quick, 22 thorough) with a scheduling point at every line of iodata code (first 2 / 4 visits of each line per thread) and all schedules with <= 1 preemption. "
+        "warnings.catch_warnings.__enter__/__exit__; second pass: two threads using the same format module on distinct data (5 pairs quick, 22 thorough) with a scheduling point at every line of iodata code (first 2 / 4 visits of each line per thread) and all schedules with <= 1 preemption; for xyz dump/dump (thorough: also xyz load/load, sdf dump/dump) all schedules with <= 2 preemptions over the first visit of each line. "
         "interleaved iterators: every order of the 4+4 steps of two load_many iterators (21 same-/cross-format pairs of XYZ, SDF, MOL2, PDB, GRO, extXYZ trajectories from independent writers), "
-        "plus one unrelated load_one inserted at every position of three orders; every frame must equal the frame obtained when the iterator runs alone."
+        "plus one unrelated load_one inserted at every position of three orders; every frame must equal the frame obtained when the iterator runs alone. "
+        "fault history: for 4 (thorough: 12) corpus files every numeric token scaled / every integer token incremented (quick: ~150 per file); the damaged file must give the same outcome "
+        "in a fresh child process as in a child that loaded the intact file first."
     )
     ctx.assumptions += ["thread exploration: scheduling points only where process-global state is touched (API wrapper, catch_warnings); module tables are shown read-only by the sequential part",
                         "results are compared through deep bit-exact snapshots / file digests"]
